@@ -910,9 +910,22 @@ impl<const N: usize> SubscriptionsInner<N> {
     ) where
         B: Buffers<IMBuffer> + 'a,
     {
-        // Always clear the reporting slot; it was populated in `report()`.
-        self.reporting = None;
-        let cancelled = self.reporting_cancelled.take();
+        // The `reporting` slot (and a cancellation requested through it) belongs to the
+        // context created by `report()`. A priming context (from `add()`) that completes
+        // while a report is in flight must neither clear the slot - `remove` could no
+        // longer reach the in-flight subscription - nor consume a cancellation meant for
+        // that subscription: the new subscription would be dropped and the removed one kept.
+        let owns_slot = self
+            .reporting
+            .as_ref()
+            .is_some_and(|reporting| reporting.ids.id == sub.ids.id);
+
+        let cancelled = if owns_slot {
+            self.reporting = None;
+            self.reporting_cancelled.take()
+        } else {
+            None
+        };
 
         if let Some(reason) = cancelled {
             info!(
@@ -3595,6 +3608,57 @@ mod tests {
             let s = s.borrow();
             assert_eq!(s.subscriptions_count, 1);
             assert_eq!(s.subscriptions.len(), 1);
+            assert!(s.reporting.is_none());
+            assert!(s.reporting_cancelled.is_none());
+        });
+    }
+
+    #[test]
+    fn priming_completing_during_a_cancelled_report_does_not_take_the_cancellation() {
+        // A report for subscription 1 is in flight when its peer subscribes anew (not
+        // keeping its subscriptions): `remove` flags the in-flight subscription. The new
+        // subscription's priming completes before the old report does. The new
+        // subscription must be kept and the old one dropped - not the other way round.
+        let subs: Subscriptions<3> = Subscriptions::new();
+        let pool = TestPool::<4>::new();
+        let subs_bufs: SubscriptionsBuffers<TestPool<4>, 3> = SubscriptionsBuffers::new();
+
+        let base = Instant::now();
+        {
+            let mut r1 = add_sub(&subs, &subs_bufs, &pool, base, 1, 100, 0, 60);
+            r1.set_keep();
+        }
+
+        subs.notify_attr_changed(1, 2, 3);
+
+        let later = base + Duration::from_secs(1);
+        let mut report = subs.report(later, 0, &subs_bufs).unwrap();
+        assert_eq!(report.subscription().ids().id, 1);
+
+        // The new subscribe request: drop the peer's subscriptions, then prime.
+        assert!(subs.remove(&subs_bufs, |sub| (sub.ids().peer_node_id == 100)
+            .then_some("new subscription request")));
+        let mut priming = add_sub(&subs, &subs_bufs, &pool, later, 1, 100, 0, 60);
+        assert_eq!(priming.subscription().ids().id, 2);
+        priming.set_keep();
+        drop(priming);
+
+        // The in-flight slot is still observable (and still cancelled).
+        subs.state.lock(|s| {
+            let s = s.borrow();
+            assert!(s.reporting.is_some());
+            assert!(s.reporting_cancelled.is_some());
+        });
+
+        // The old report completes "successfully"; it was cancelled.
+        report.set_keep();
+        drop(report);
+
+        subs.state.lock(|s| {
+            let s = s.borrow();
+            assert_eq!(s.subscriptions.len(), 1);
+            assert_eq!(s.subscriptions[0].ids().id, 2, "the new subscription is the one kept");
+            assert_eq!(s.subscriptions_count, 1);
             assert!(s.reporting.is_none());
             assert!(s.reporting_cancelled.is_none());
         });
